@@ -88,6 +88,27 @@ def compare(rel, impl_err, impl_ids, val, scale, dists=None):
     return None
 
 
+def np_rpe(rel, ref, est, pairs):
+    """the definition of the statement in plain numpy (independent of evo's lie_algebra and of the Coq model)"""
+    vals, ids = [], []
+    inv = np.linalg.inv
+    for i, j in pairs:
+        if rel in ("point_distance", "point_distance_error_ratio"):
+            dr = float(np.linalg.norm(ref[j][:3, 3] - ref[i][:3, 3]))
+            de = float(np.linalg.norm(est[j][:3, 3] - est[i][:3, 3]))
+            if rel == "point_distance":
+                vals.append(abs(dr - de))
+            elif dr != 0.0:
+                vals.append(abs(dr - de) / dr * 100.0)
+            else:
+                continue
+        else:
+            E = inv(inv(ref[i]) @ ref[j]) @ (inv(est[i]) @ est[j])
+            vals.append(c01.np_reduce(rel, E))
+        ids.append(int(j))
+    return vals, ids
+
+
 def _pairs(poses, case):
     from evo.core import filters, metrics
     try:
@@ -211,6 +232,11 @@ def judge(case, val, out):
         dists = [float(np.linalg.norm(ref[j][:3, 3] - ref[first[j]][:3, 3])) if j in first else 1.0 for j in ids]
         d = compare(rel, impl_err, ids, val, scale, dists)
         if d is not None:
+            oracle, oids = np_rpe(rel, ref, est_, out["pairs"])
+            if len(impl_err) == len(ids) and compare(rel, oracle, oids, val, scale, dists) is None:
+                # the Coq model and an independent numpy evaluation of the definition agree with each other
+                return _sv("a value is not the definition applied to the relative motions of its pair (Coq model and an "
+                           "independent numpy evaluation agree): " + d)
             return _mv(d, "Metrics.rpe")
         if "again" in out and out["again"] != [out["error"], ids]:
             return _sv("a metric object that had processed other data before returns different values / end indices "
